@@ -1,6 +1,7 @@
 package checks
 
 import (
+	"reflect"
 	"strconv"
 	"bytes"
 	"encoding/json"
@@ -13,6 +14,7 @@ import (
 	"time"
 
 	"github.com/fiorix/go-diameter/v4/diam"
+	"github.com/fiorix/go-diameter/v4/diam/dict"
 	"github.com/fiorix/go-diameter/v4/diam/datatype"
 	"github.com/fiorix/go-diameter/v4/diam/sm/smparser"
 	"verif/internal/atoms"
@@ -78,6 +80,12 @@ func inspect(c *Config, m *diam.Message) {
 	_ = m.Unmarshal(new(smparser.DWA))
 	_ = m.Unmarshal(new(c03Generic))
 	_ = m.Unmarshal(new(c03Arrays))
+	// ... and into a struct built for THIS configuration: every Grouped AVP of its alphabet mapped
+	// onto a nested struct, a pointer to one and a slice of them (so the nested scan runs for the
+	// groups the inputs really carry)
+	if t := c03NestedType(c); t != nil {
+		_ = m.Unmarshal(reflect.New(t).Interface())
+	}
 	codes := []interface{}{264, uint32(268), "Origin-Host", "Result-Code", "Vendor-Specific-Application-Id", uint32(c.A.Undef[0]), "No-Such-AVP", uint32(260)}
 	for _, a := range m.AVP {
 		codes = append(codes, a.Code)
@@ -101,6 +109,27 @@ func inspect(c *Config, m *diam.Message) {
 		_ = a.String()
 		_, _ = a.Serialize()
 	}
+}
+
+var c03NestedTypes = map[string]reflect.Type{}
+
+func c03NestedType(c *Config) reflect.Type {
+	if t, ok := c03NestedTypes[c.Name]; ok {
+		return t
+	}
+	var t reflect.Type
+	leaf, ok := c.A.Plain[atoms.KU32]
+	if ok && len(c.A.Groups) > 0 {
+		inner := reflect.StructOf([]reflect.StructField{{Name: "M", Type: reflect.TypeOf(uint32(0)), Tag: reflect.StructTag(fmt.Sprintf(`avp:"%s"`, leaf.Name))}})
+		var fs []reflect.StructField
+		for i, g := range c.A.Groups {
+			ft := []reflect.Type{reflect.SliceOf(inner), inner, reflect.PtrTo(inner)}[i%3]
+			fs = append(fs, reflect.StructField{Name: fmt.Sprintf("G%d", i), Type: ft, Tag: reflect.StructTag(fmt.Sprintf(`avp:"%s"`, g.Name))})
+		}
+		t = reflect.StructOf(fs)
+	}
+	c03NestedTypes[c.Name] = t
+	return t
 }
 
 var c03ms runtime.MemStats
@@ -159,6 +188,14 @@ func c03Eval(c *Config, cs C03Case, measure bool) (res string) {
 		if err == nil && m != nil {
 			phase = "inspecting the decoded message"
 			inspect(c, m)
+		}
+		if dp == dict.Default {
+			// the dictionary argument omitted (nil stands for dict.Default): same decode, same inspections
+			phase = "decoding with a nil dictionary argument"
+			if m2, err := diam.ReadMessage(bytes.NewReader(cs.Data), nil); err == nil && m2 != nil {
+				phase = "inspecting the message decoded with a nil dictionary argument"
+				inspect(c, m2)
+			}
 		}
 	case strings.HasPrefix(cs.Entry, "stream:"):
 		// messages read one after another from one stream; the exported diam.MessageBufferLength
@@ -625,7 +662,7 @@ func c03Enum(ctx *ev.Ctx, fn func(*Config, C03Case)) string {
 			emit(c, "message", fmt.Sprintf("grouped AVP nested in itself %d deep", depth), nestedMessage(c, depth))
 		}
 	}
-	return "(0) every stream of <=3 pieces over {messages with 8 / 600 / 2036 / 5000-byte bodies, a bare header claiming 2056 bytes, headers claiming 620 / 3000 bytes followed by 10 / 1500} read message by message with the exported diam.MessageBufferLength set to one of {1024, 4096, 512} before each read; (i) every byte string of length <=1 and a lattice of length 2 (thorough: all) on every entry point; 20-byte headers with every declared length 0..2100 and 2^k-1, 2^k, 2^k+1 up to 2^24-1 x 4 commands x R bit, header only and with the body supplied; (ii) AVP shapes code {one per type, vendor variants, groups, undefined} x flags {0,0x20,0x40,0x80,0xC0,0xFF} x declared length 0..44 x bytes available 0..44 (quick: the neighbourhood of declared, multiples of 8) as DecodeAVP input, as message body and as group payload; (iii) every datatype decoder on payloads of 0..40 bytes x 4 fill patterns (address families 1, 257, 65535, 32897), the rendered text bounded by 32 x supplied + 256 bytes; (iv) every single structured corruption (each length field to 16 boundary values, every flag bit, code to undefined/0/2^31-1, truncation at every offset with and without a consistent header) of well-formed seeds covering every type and nesting, and every pair of corruptions on small seeds (thorough: triples on one seed); (v) a grouped AVP nested 1..1000 deep in-process with every inspection (String/PrettyDump are cubic in depth), 3000 deep with re-serialisation measured, and 6*10^4 (thorough) and 2*10^6 deep in child processes under an 8 GiB address-space cap. On everything that decodes: String, PrettyDump, Serialize, WriteTo, Unmarshal into CER/CEA/DWR/DWA, a generic struct and a struct of fixed-size byte arrays, FindAVP/FindAVPs/FindAVPsWithPath by code and name. Distinct by (configuration, entry point, bytes)."
+	return "(0) every stream of <=3 pieces over {messages with 8 / 600 / 2036 / 5000-byte bodies, a bare header claiming 2056 bytes, headers claiming 620 / 3000 bytes followed by 10 / 1500} read message by message with the exported diam.MessageBufferLength set to one of {1024, 4096, 512} before each read; (i) every byte string of length <=1 and a lattice of length 2 (thorough: all) on every entry point; 20-byte headers with every declared length 0..2100 and 2^k-1, 2^k, 2^k+1 up to 2^24-1 x 4 commands x R bit, header only and with the body supplied; (ii) AVP shapes code {one per type, vendor variants, groups, undefined} x flags {0,0x20,0x40,0x80,0xC0,0xFF} x declared length 0..44 x bytes available 0..44 (quick: the neighbourhood of declared, multiples of 8) as DecodeAVP input, as message body and as group payload; (iii) every datatype decoder on payloads of 0..40 bytes x 4 fill patterns (address families 1, 257, 65535, 32897), the rendered text bounded by 32 x supplied + 256 bytes; (iv) every single structured corruption (each length field to 16 boundary values, every flag bit, code to undefined/0/2^31-1, truncation at every offset with and without a consistent header) of well-formed seeds covering every type and nesting, and every pair of corruptions on small seeds (thorough: triples on one seed); (v) a grouped AVP nested 1..1000 deep in-process with every inspection (String/PrettyDump are cubic in depth), 3000 deep with re-serialisation measured, and 6*10^4 (thorough) and 2*10^6 deep in child processes under an 8 GiB address-space cap. Message input of the configurations built on dict.Default is also decoded with the dictionary argument omitted (nil) and inspected the same way. On everything that decodes: String, PrettyDump, Serialize, WriteTo, Unmarshal into CER/CEA/DWR/DWA, a generic struct, a struct of fixed-size byte arrays and a struct that maps every Grouped AVP of the configuration's alphabet onto a nested struct / pointer / slice, FindAVP/FindAVPs/FindAVPsWithPath by code and name. Distinct by (configuration, entry point, bytes)."
 }
 
 func nestedMessage(c *Config, depth int) []byte {
